@@ -375,7 +375,7 @@ def split_limit(orig, rend):
     return orig[:mo.start()], rend, dict(kind='limit-differs', orig_limit_offset=want, rend_limit_offset=None)
 
 
-def compare_select(db, orig, rend, ordered, alias_names=(), order_keys=None):
+def compare_select(db, orig, rend, ordered, alias_names=(), order_keys=None, order_cols=None):
     o2, r2, verdict = split_limit(orig, rend)
     if o2 is not None:
         if verdict:
@@ -410,6 +410,11 @@ def compare_select(db, orig, rend, ordered, alias_names=(), order_keys=None):
             if a[0] == 'ok' and b[0] == 'ok' and [r[-n:] for r in a[1]] != [r[-n:] for r in b[1]]:
                 return dict(kind='order-differs', orig_rows=o0[1], rend_rows=r0[1],
                             orig_keys=[r[-n:] for r in a[1]], rend_keys=[r[-n:] for r in b[1]])
+    if ordered and order_cols and o0[1] != r0[1]:
+        # the ORDER BY keys are output columns (also usable under DISTINCT): their value sequences must coincide
+        a, b = [tuple(r[i] for i in order_cols) for r in o0[1]], [tuple(r[i] for i in order_cols) for r in r0[1]]
+        if a != b:
+            return dict(kind='order-differs', orig_rows=o0[1], rend_rows=r0[1], orig_keys=a, rend_keys=b)
     for i, nm in alias_names:
         if i < len(r0[2]) and r0[2][i].lower() != nm.lower():
             return dict(kind='alias-differs', orig_names=o0[2], rend_names=r0[2])
@@ -692,6 +697,7 @@ class Gen:
                                            rng.choice(self.CMP), rng.choice((0, 1, 2)))
         ordered = False
         self.order_keys = None
+        self.order_cols = None
         if top or rng.random() < 0.2:
             if rng.random() < 0.45:
                 ordered = True
@@ -708,6 +714,8 @@ class Gen:
                 s += ' ORDER BY ' + ', '.join(keys)
                 if not distinct:
                     self.order_keys = bare
+                if all(k in targets for k in bare) and '*' not in targets:
+                    self.order_cols = [targets.index(k) for k in bare]
             if rng.random() < 0.04:
                 self.f('offset-without-limit')
                 s += ' OFFSET %d' % rng.randint(0, 2)
@@ -888,6 +896,63 @@ class Gen:
         self.scope_levels = out
         return text, False, []
 
+    # constructs the SQLAlchemy path of the renderer refuses (NotImplementedError / CompileError), as one-column SELECTs
+    UNSUPPORTED = (
+        ('right-join', 'SELECT t.a FROM t RIGHT JOIN u ON t.a = u.a'),
+        ('outer-join', 'SELECT t.a FROM t OUTER JOIN u ON t.a = u.a'),
+        ('cast-type-target', 'SELECT CAST(a AS FOO) FROM t'),
+        ('cast-type-where', 'SELECT a FROM t WHERE CAST(b AS FOO) = 1'),
+        ('cast-type-order', 'SELECT a FROM t ORDER BY CAST(b AS FOO)'),
+        ('table-path', 'SELECT a FROM y.z.t'),
+        ('param-alias', 'SELECT ? AS a FROM t'),
+        ('union-columns', 'SELECT a FROM t UNION SELECT a, b FROM t'),
+    )
+
+    def poison(self):
+        """a statement whose rendering fails PART-WAY: an unsupported construct at some nesting position (derived table, once
+        or twice deep, as join operand; IN / EXISTS / scalar sub-query; CTE body; set-operation operand; after a derived table
+        was rendered; in a DML statement) -- or at top level.  Only rendered, never executed.
+        returns (text, tag)"""
+        rng = self.rng
+        what, x = rng.choice(self.UNSUPPORTED)
+        ok = rng.choice(('SELECT a FROM t ORDER BY a DESC', 'SELECT a FROM u', 'SELECT b AS a FROM t ORDER BY b LIMIT 2'))
+        where = rng.choice(('top', 'derived', 'derived', 'derived', 'derived-join', 'derived2', 'derived-ordered', 'in', 'exists', 'scalar',
+                            'cte', 'cte', 'setop-left', 'setop-right', 'setop-nested', 'after-derived', 'after-subquery', 'two-derived',
+                            'insert-select', 'delete-in'))
+        text = {
+            'top': x,
+            'derived': 'SELECT * FROM (%s) AS s' % x,
+            'derived-join': 'SELECT t.a FROM t JOIN (%s) AS s ON t.a = s.a' % x,
+            'derived2': 'SELECT * FROM (SELECT * FROM (%s) AS s1 ORDER BY 1) AS s2' % x,
+            'derived-ordered': 'SELECT s.a FROM (%s) AS s ORDER BY s.a DESC' % x,
+            'in': 'SELECT a FROM t WHERE a IN (%s)' % x,
+            'exists': 'SELECT a FROM t WHERE EXISTS (%s) ORDER BY a' % x,
+            'scalar': 'SELECT a, (%s) FROM t' % x,
+            'cte': 'WITH w AS (%s) SELECT * FROM w' % x,
+            'setop-left': '%s UNION SELECT a FROM t' % x,
+            'setop-right': 'SELECT a FROM t UNION ALL %s' % x,
+            'setop-nested': 'SELECT a FROM t EXCEPT (SELECT a FROM u UNION %s)' % x,
+            'after-derived': 'SELECT s.a FROM (%s) AS s WHERE CAST(s.a AS FOO) = 1' % ok,
+            'after-subquery': 'SELECT a FROM t WHERE a IN (%s) AND CAST(b AS FOO) = 1' % ok.split(' ORDER BY')[0],
+            'two-derived': 'SELECT s1.a FROM (%s) AS s1 JOIN (%s) AS s2 ON s1.a = s2.a' % (ok, x),
+            'insert-select': 'INSERT INTO t (a, b) SELECT s.a, s.a FROM (%s) AS s' % x,
+            'delete-in': 'DELETE FROM t WHERE a IN (%s)' % x,
+        }[where]
+        return text, '%s@%s' % (what, where)
+
+    def ordered_select(self):
+        """a generated SELECT with a top-level ORDER BY (any shape `select` has: joins, derived tables with their own ORDER BY,
+        GROUP BY, DISTINCT, windows, sub-queries; mostly without LIMIT)"""
+        for _ in range(40):
+            self.feats, self.strs = set(), set()
+            text, ordered, alias = self.select()
+            if ordered and (self.order_keys or self.order_cols):
+                if ' LIMIT ' in text.rsplit(')', 1)[-1] and self.rng.random() < 0.6:
+                    text = re.sub(r' LIMIT \d+(?: OFFSET \d+)?$', '', text)
+                break
+        return dict(kind='select', text=text, ordered=ordered, alias=alias, feats=sorted(self.feats), order_keys=self.order_keys,
+                    order_cols=self.order_cols, strs=sorted(self.strs))
+
     def having_no_group(self):
         """aggregates over the single implicit group with HAVING and no GROUP BY: top level, IN / scalar sub-query,
         CTE body, INSERT … SELECT source"""
@@ -1031,6 +1096,7 @@ class Gen:
         self.order_keys = None
         self.exec_text = None
         self.scope_levels = None
+        self.order_cols = None
         r = self.rng.random()
         if r < 0.52:
             text, ordered, alias = self.select()
@@ -1053,6 +1119,8 @@ class Gen:
             text, ordered, alias, kind = self.dml(), False, [], 'dml'
         out = dict(kind=kind, text=text, ordered=ordered, alias=alias, feats=sorted(self.feats),
                    order_keys=self.order_keys if kind == 'select' and ordered else None, strs=sorted(self.strs))
+        if kind == 'select' and ordered and self.order_cols:
+            out['order_cols'] = self.order_cols
         if self.exec_text:
             out['exec_text'] = self.exec_text
         if self.scope_levels:
